@@ -158,7 +158,8 @@ def finish(ctx, seed=0):
     ev = {"property_id": ctx.pid, "tier": ctx.tier, "seed": int(seed), "level": ctx.level,
           "coverage": cov, "assumptions": ctx.assumptions, "wall_s": round(wall, 3),
           "violations": len(new)}
-    if ctx.only is None:
+    no_write = bool(os.environ.get("VERIF_NO_EVIDENCE"))
+    if ctx.only is None and not no_write:
         with open(os.path.join(EVIDENCE_DIR, "%s.json" % ctx.pid), "w") as f:
             json.dump(ev, f, indent=1, sort_keys=True, default=str)
     print("%s [%s] %d obligations, %d discharged, %d failed (%d listed as known), %.2fs"
@@ -166,13 +167,15 @@ def finish(ctx, seed=0):
     for o, txt in listed:
         print("KNOWN-FINDING: property=%s %s at %s: %s" % (ctx.pid, o.key(), fmt_site(o.site), txt or o.detail))
     if new:
-        os.makedirs(REPLAY_DIR, exist_ok=True)
+        if not no_write:
+            os.makedirs(REPLAY_DIR, exist_ok=True)
         for o in new:
             dig = hashlib.sha256(o.key().encode()).hexdigest()[:10]
             path = os.path.join(REPLAY_DIR, "%s-%s-%s.json" % (ctx.pid, re.sub(r"[^A-Za-z0-9]+", "_", o.rule)[:24], dig))
-            with open(path, "w") as f:
-                json.dump({"property_id": ctx.pid, "rule": o.rule, "instance": o.instance,
-                           "detail": o.detail, "site": fmt_site(o.site), "witness": o.witness}, f, indent=1, default=str)
+            if not no_write:
+                with open(path, "w") as f:
+                    json.dump({"property_id": ctx.pid, "rule": o.rule, "instance": o.instance,
+                               "detail": o.detail, "site": fmt_site(o.site), "witness": o.witness}, f, indent=1, default=str)
             print("%s: [%s/%s] %s -- %s" % (fmt_site(o.site), ctx.pid, o.rule, o.instance, o.detail))
             print("VIOLATION property=%s replay=%s" % (ctx.pid, path))
         return 1
